@@ -114,10 +114,22 @@ def partitions(defs, maxfiles=3):
 FILE_STEMS = ['geometry', 'history', 'top', 'happy']      # stems ending in letters of ".prophy" on purpose
 
 
-def file_texts(defs, k, assign, deps, include_all):
+def type_stems(defs, k, assign):
+    """File stems equal to the name of the first type each file defines (Point.prophy defines struct Point)."""
+    stems = []
+    for j in range(k):
+        mine = [defs[i] for i in range(len(defs)) if assign[i] == j and not isinstance(defs[i], S.Const)]
+        stems.append(mine[0].name if mine else FILE_STEMS[j])
+    return stems
+
+
+def file_texts(defs, k, assign, deps, include_all, stems=None):
     """-> [(filename, text)] ; file j includes every lower file it uses directly (or all lower files);
     include_all == 'common' additionally makes every file include a declaration-free common file."""
     texts = []
+    if include_all == 'typenames':
+        stems, include_all = type_stems(defs, k, assign), True
+    stems = stems or FILE_STEMS
     for j in range(k):
         mine = [i for i in range(len(defs)) if assign[i] == j]
         need = set()
@@ -127,17 +139,23 @@ def file_texts(defs, k, assign, deps, include_all):
                     need.add(assign[dep])
         if include_all:
             need = set(range(j))
-        lines = ['#include "%s.prophy"' % FILE_STEMS[f] for f in sorted(need)]
+        lines = ['#include "%s.prophy"' % stems[f] for f in sorted(need)]
         if include_all == 'common':
             lines.insert(0, '#include "common.prophy"')
         lines += [S.render_def(defs[i]) for i in mine]
-        texts.append(('%s.prophy' % FILE_STEMS[j], '\n'.join(lines) + '\n'))
+        texts.append(('%s.prophy' % stems[j], '\n'.join(lines) + '\n'))
     if include_all == 'common':
         texts.insert(0, ('common.prophy', '// shared header without declarations\n/* nothing here */\n'))
     return texts
 
 
-ARRANGEMENTS = ('same-dir', 'one-include-dir', 'two-include-dirs', 'other-cwd-absolute', 'parent-cwd-relative')
+ARRANGEMENTS = ('same-dir', 'one-include-dir', 'two-include-dirs', 'other-cwd-absolute', 'parent-cwd-relative',
+                'lib-dir-with-decoy')
+
+
+def decoy_of(text):
+    """A valid file with the same names and other layouts / values (must never be the one that gets compiled)."""
+    return text.replace('u8 ', 'u32 ').replace('u16 ', 'u64 ').replace(' = 2;', ' = 4;').replace(' = 3;', ' = 6;').replace(' = 7;', ' = 9;')
 
 
 def layout_on_disk(root, texts, arrangement):
@@ -149,7 +167,7 @@ def layout_on_disk(root, texts, arrangement):
     paths = {}
     k = len(texts)
     for j, (fn, text) in enumerate(texts):
-        if arrangement == 'one-include-dir' and j < k - 1:
+        if arrangement in ('one-include-dir', 'lib-dir-with-decoy') and j < k - 1:
             d = os.path.join(root, 'inc1')
         elif arrangement == 'two-include-dirs' and j < k - 1:
             d = os.path.join(root, 'inc%d' % (1 + j % 2))
@@ -159,6 +177,14 @@ def layout_on_disk(root, texts, arrangement):
         paths[fn] = os.path.join(d, fn)
         with open(paths[fn], 'w') as f:
             f.write(text)
+    if arrangement == 'lib-dir-with-decoy':
+        # next to the main file: a different file under the name of every file the main file reaches only through
+        # another include (found in the library directory, whose own directory has to win)
+        main_text = texts[-1][1]
+        for fn, text in texts[:-1]:
+            if ('"%s"' % fn) not in main_text and decoy_of(text) != text:
+                with open(os.path.join(src, fn), 'w') as f:
+                    f.write(decoy_of(text))
     incs = []
     for d in ('inc1', 'inc2'):
         if os.path.isdir(os.path.join(root, d)):
@@ -174,7 +200,26 @@ def layout_on_disk(root, texts, arrangement):
     else:
         cwd = src
         inputs = [os.path.relpath(paths[fn], src) for fn, _ in texts]
+    if arrangement == 'lib-dir-with-decoy':
+        inputs = inputs[-1:]        # the main file alone: its includes are resolved, not taken from the cache of earlier inputs
     return cwd, incs + inputs, out, paths
+
+
+def headers_that_do_not_compile(outdir, stems):
+    import subprocess
+    inc = os.path.join(T.REPO, 'prophy_cpp', 'include')
+    bad = []
+    for stem in stems:
+        for ext in ('.pp.hpp', '.ppf.hpp'):
+            h = os.path.join(outdir, stem + ext)
+            if not os.path.exists(h):
+                bad.append((stem + ext, 'not generated'))
+                continue
+            p = subprocess.run(['g++', '-std=gnu++14', '-w', '-fsyntax-only', '-x', 'c++', '-I', inc, '-I', outdir, h],
+                               stdout=subprocess.PIPE, stderr=subprocess.STDOUT)
+            if p.returncode:
+                bad.append((stem + ext, p.stdout.decode('utf-8', 'replace')[:400]))
+    return bad
 
 
 _open_log = []
@@ -220,11 +265,16 @@ def judge(job):
         vals = dict((c, V.Values(ref, tier).enumerate(c, 12)[0]) for c in comps)
         for k, assign, deps in partitions(defs, maxfiles):
             out['partitions'] += 1
-            for include_all in (False, True, 'common'):
+            for include_all in (False, True, 'common', 'typenames'):
                 texts = file_texts(defs, k, assign, deps, include_all)
                 if include_all is True and texts == file_texts(defs, k, assign, deps, False):
                     continue
-                for arrangement in ARRANGEMENTS:
+                stems_now = type_stems(defs, k, assign) if include_all == 'typenames' else FILE_STEMS
+                if include_all == 'typenames' and len(set(stems_now)) < k:
+                    continue
+                for arrangement in (ARRANGEMENTS if include_all != 'typenames' else ARRANGEMENTS[:2]):
+                    if arrangement == 'lib-dir-with-decoy' and include_all is not False:
+                        continue
                     root = T.fresh_dir('c16')
                     try:
                         cwd, tail, outdir, paths = layout_on_disk(root, texts, arrangement)
@@ -232,8 +282,10 @@ def judge(job):
                         del _open_log[:]
                         _open_on[0] = True
                         try:
+                            with_cpp = arrangement == 'same-dir' and include_all in (False, 'typenames')
+                            cpp_too = ['--cpp_out', outdir, '--cpp_full_out', outdir] if with_cpp else []
                             res = T.run_prophyc(['--python_out', os.path.relpath(outdir, cwd) if arrangement == 'parent-cwd-relative'
-                                                 else outdir] + tail)
+                                                 else outdir] + cpp_too + tail)
                         finally:
                             _open_on[0] = False
                             os.chdir(home)
@@ -245,18 +297,39 @@ def judge(job):
                         opened = {}
                         for p in _open_log:
                             opened[p] = opened.get(p, 0) + 1
+                        if arrangement == 'lib-dir-with-decoy':
+                            real = set(os.path.abspath(p) for p in paths.values())
+                            stray = [p for p in opened if p not in real]
+                            if stray:
+                                viol('decoy-file-read|%s' % arrangement, 'opened %s instead of the file next to its includer' % (
+                                    [os.path.relpath(p, root) for p in stray],), files, arrangement)
+                            for i, d in enumerate(defs):
+                                if assign[i] == k - 1 and isinstance(d, (S.Struct, S.Union)):
+                                    node = dict((n.name, n) for n in res.nodes[stems_now[k - 1]]).get(d.name)
+                                    if node is None or (node.byte_size, node.alignment) != (snodes[d.name].byte_size, snodes[d.name].alignment):
+                                        viol('layout-differs|%s' % arrangement, '%s: %s, single-file build %s' % (
+                                            d.name, node and (node.byte_size, node.alignment),
+                                            (snodes[d.name].byte_size, snodes[d.name].alignment)), files, arrangement)
+                            continue
                         multi = [p for p, n in opened.items() if n != 1]
                         missing = [p for p in paths.values() if os.path.abspath(p) not in opened]
                         if multi or missing:
                             viol('file-not-read-exactly-once|%s' % arrangement,
                                  'opened %s' % dict((os.path.basename(p), n) for p, n in opened.items()), files, arrangement)
+                        if with_cpp:
+                            # every generated header has to compile on its own (it includes what it needs)
+                            bad = headers_that_do_not_compile(outdir, [fn[:-7] for fn, _ in texts])
+                            out['headers'] = out.get('headers', 0) + 2 * len(texts)
+                            if bad:
+                                viol('generated-header-does-not-compile-alone|%s' % bad[0][0].split('.', 1)[1], '%s: %s' % bad[0],
+                                     files, arrangement)
                         # every file has an output; the last one sees every definition
                         try:
                             mods = {}
                             for fn, _ in texts:
                                 stem = fn[:-7]
                                 mods[stem] = T.import_generated(os.path.join(outdir, stem + '.py'))
-                            stem_of = dict((j, FILE_STEMS[j]) for j in range(k))
+                            stem_of = dict((j, stems_now[j]) for j in range(k))
                         except Exception as e:      # noqa
                             viol('generated-module-import-fails|%s|%s' % (arrangement, type(e).__name__), str(e)[:300], files,
                                  arrangement)
